@@ -11,7 +11,7 @@ import gen, pipeline, model, impl, compare, shex_text, findings as F, oracle
 from props import base
 from shexer import consts as C
 
-PROPS_MODULES = ["ShexerModel.Props.C10", "ShexerModel.Props.GenStrUnprefix"]
+PROPS_MODULES = ["ShexerModel.Props.C10", "ShexerModel.Props.GenStrUnprefix", "ShexerModel.Props.GenStrLabel"]
 DEPS = []
 replay = base.replay
 SH_NS = "http://example.org/shapes/"
